@@ -5,6 +5,7 @@ import SolverzModel.Core.Ctl.Rodas
 import SolverzModel.Proofs.Rodas
 import SolverzModel.Proofs.RodasRun
 import SolverzModel.Proofs.RodasDense
+import SolverzModel.Proofs.Ode15sRun
 namespace Solverz
 open RodasEnv
 
@@ -135,6 +136,60 @@ example : ∃ E : RodasEnv ℚ, DenseHyp E ∧
             events := [] }, ⟨rfl, rfl, rfl, by decide, rfl, by norm_num, ?_, ?_, ?_⟩, by decide +kernel⟩
   · decide +kernel
   · decide +kernel
+  · decide +kernel
+
+/-! ### ode15s: whole runs of its step-size / order / output controller, exact arithmetic -/
+
+/-- **ode15s, two requested nodes.**  For every sequence of step records — whatever the Newton iteration did, however often
+a step was retried, whatever orders were selected — the returned times start at `t0`, increase strictly, never pass `tend`,
+and the run is finished exactly when the current time *is* `tend` (the end point is assigned, not computed). -/
+theorem C09_ode15s_run_times (E : OdeEnv ℚ) (H : OdeHyp E) (hd : E.dense = false) (absh0 : ℚ) (h0 : 0 < absh0) (hm : absh0 ≤ E.hmax)
+    (recs : List (StepRec ℚ)) (hrecs : ∀ r ∈ recs, ∀ e ∈ r.inner, Inner.ok e) :
+    (E.run recs (E.init absh0)).T.reverse.head? = some E.t0 ∧
+    (E.run recs (E.init absh0)).T.reverse.Pairwise (· < ·) ∧
+    (∀ τ ∈ (E.run recs (E.init absh0)).T, E.t0 ≤ τ ∧ τ ≤ E.tend) ∧
+    (E.run recs (E.init absh0)).T.head? = some (E.run recs (E.init absh0)).t ∧
+    ((E.run recs (E.init absh0)).done = true ↔ (E.run recs (E.init absh0)).t = E.tend) := by
+  obtain ⟨I0, O0⟩ := H.init_inv absh0 h0 hm
+  obtain ⟨I, O⟩ := H.run_two hd recs hrecs _ I0 O0
+  refine ⟨by rw [List.head?_reverse]; exact O.last, by rw [List.pairwise_reverse]; exact O.incr, ?_, O.head, ?_⟩
+  · intro τ hτ
+    have := pairwise_gt_bounds _ _ _ O.incr O.head O.last τ hτ
+    exact ⟨this.1, le_trans this.2 I.le_tend⟩
+  · constructor
+    · exact I.finished
+    · intro h
+      by_contra hn
+      have := I.running (by simpa using hn)
+      linarith
+
+/-- **ode15s: no step exceeds the maximum step**, and every step advances time -/
+theorem C09_ode15s_step_le_hmax (E : OdeEnv ℚ) (H : OdeHyp E) (rec : StepRec ℚ) (hrec : ∀ e ∈ rec.inner, Inner.ok e)
+    (s : OdeState ℚ) (I : OdeInv E s) (hr : s.done = false) :
+    s.t < (E.step rec s).t ∧ (E.step rec s).t - s.t ≤ E.hmax := (H.step_inv rec hrec s I hr).2
+
+/-- **ode15s, more than two requested nodes.**  The returned times are always a prefix of `tspan`, and all of `tspan`
+once the run is finished. -/
+theorem C09_ode15s_dense_run_times (E : OdeEnv ℚ) (H : OdeHyp E) (D : OdeHyp.OdeDenseHyp E) (absh0 : ℚ) (h0 : 0 < absh0) (hm : absh0 ≤ E.hmax)
+    (recs : List (StepRec ℚ)) (hrecs : ∀ r ∈ recs, ∀ e ∈ r.inner, Inner.ok e) :
+    (E.run recs (E.init absh0)).T.reverse <+: E.tspan ∧
+    ((E.run recs (E.init absh0)).done = true → (E.run recs (E.init absh0)).T.reverse = E.tspan) := by
+  obtain ⟨I0, _⟩ := H.init_inv absh0 h0 hm
+  obtain ⟨I, O⟩ := H.run_dense D recs hrecs _ I0 (H.init_dense D absh0)
+  have hT : (E.run recs (E.init absh0)).T.reverse = E.tspan.take (E.run recs (E.init absh0)).inext := by rw [O.out, List.reverse_reverse]
+  refine ⟨by rw [hT]; exact List.take_prefix _ _, ?_⟩
+  intro hd
+  rw [hT, O.all (I.finished hd), List.take_length]
+
+/-- non-vacuity: the hypotheses hold for a concrete environment, and a run with a retried step (error test failed once,
+order kept) reaches `tend = 1` -/
+example : ∃ E : OdeEnv ℚ, OdeHyp E ∧ E.dense = false ∧
+    (E.run [⟨[], ⟨1, none, none⟩⟩, ⟨[.errFail (1/2) none], ⟨1, none, none⟩⟩, ⟨[], ⟨1, none, none⟩⟩, ⟨[], ⟨1, none, none⟩⟩] (E.init (2/5))).T.reverse
+      = [0, 2/5, 3/5, 4/5, 1] := by
+  refine ⟨{ O := ratO, spacing := fun _ => 1 / 4503599627370496, tspan := [0, 1], hmax := 1, c11 := 11/10, c03 := 3/10, c05 := 1/2,
+            c10 := 10, c01 := 1/10, c16 := 16, maxk := 5 }, ⟨rfl, rfl, rfl, rfl, ?_, ?_, ?_⟩, by decide, by decide +kernel⟩
+  · intro t; simp [OdeEnv.hminAt, ratO, ratFld]
+  · intro t; simp [OdeEnv.hminAt, ratO, ratFld]; norm_num
   · decide +kernel
 
 end Solverz
